@@ -118,6 +118,11 @@ def run(prop, tier, seed, known):
         for it in range(120 if tier == 'quick' else 1500):
             end = rng.choice([2.0, 3.0, 4.5])
             ri, ei = seg(rng.randint(1, 4), end), seg(rng.randint(1, 4), end)
+            if it % 7 == 3:
+                # a track that ends just short of a whole number of frames: the grid has floor(T / frame_size) points, not one more
+                short = rng.choice([2.5e-7, 4e-7, 1e-9])
+                ri[-1][1] = end - short
+                ei[-1][1] = end - short
             rl = [rng.choice(['a', 'b', 'A', 'c', 'B']) for _ in ri]
             el = [rng.choice(['x', 'y', 'X', 'z']) for _ in ei]
             size = rng.choice([0.25, 0.5])
@@ -180,7 +185,7 @@ def run(prop, tier, seed, known):
                 fails.append('scores of identical annotations change under label renaming of the estimate only: %s vs %s (labels %s)' % (p0, p1, rl4))
             # C06: one side gives every frame its own label (all singletons), the other groups frames
             nfr = int(end / size)
-            if nfr <= 12:
+            if nfr <= 12 and it % 7 != 3:
                 si = [[k * size, (k + 1) * size] for k in range(nfr)]
                 sl = ['s%d' % k for k in range(nfr)]
                 ga, gb = metrics(si, sl, ei, el, size, 1.0), metrics(ei, el, si, sl, size, 1.0)
